@@ -6,6 +6,7 @@ from __future__ import annotations
 import ast
 import asyncio
 import copy
+import inspect
 import json
 import os
 import random
@@ -155,6 +156,9 @@ class Run:
         env = self.envs.get(env_name) or self.make_env(env_name, flip_async)
         for dname in dnames:
             src = render_dag(self.spec, dname, (pauses or {}).get(dname))
+            # tawazi asks inspect.getframeinfo() for every call site; for a file name that does not exist inspect scans
+            # sys.modules each time (half of the run time).  Pre-seeding inspect's file->module cache only short-cuts that scan.
+            inspect.modulesbyfile.setdefault(f"<gen:{dname}>", __name__)
             code = compile(src, f"<gen:{dname}>", "exec")
             exec(code, env)  # noqa: S102 - generated program
             self.instances[f"{env_name}:{dname}"] = env[dname]
